@@ -40,7 +40,11 @@ DET_FIELDS = {
 }
 APD_SKIP = {"charge_to_volt_conversion", "pre_amplification"}  # derived / absent on APD characteristics
 
-_name = st.text(alphabet="abcdefghijklmnopqrstuvwxyz", min_size=2, max_size=6).filter(lambda s: s not in ("tag", "enabled", "arguments", "name", "func"))
+# names that are attributes / methods of pyxel's own ModelGroup, ModelFunction or Arguments (a MutableMapping) objects cannot be
+# told apart from them in a dotted path; such a key is refused, which the statement allows ("or is rejected") - not generated
+RESERVED = {"tag", "enabled", "arguments", "name", "func", "run", "models", "get", "set", "has", "keys", "values", "items", "pop", "popitem",
+            "update", "clear", "copy", "setdefault"}
+_name = st.text(alphabet="abcdefghijklmnopqrstuvwxyz", min_size=2, max_size=6).filter(lambda s: s not in RESERVED)
 _plain = st.text(alphabet="abcdefghijklmnopqrstuvwxyzABCXYZ_-./ ", min_size=1, max_size=10).filter(
     lambda s: s == s.strip() and not re.fullmatch(r"[+-]?(\d[\d_]*)?\.?\d*([eE][+-]?\d+)?", s) and s not in ("True", "False", "None", "inf", "nan", "-inf", "_")
     and not s[0] in "-+." and not re.match(r"^[\d.]", s) and " " not in s.strip("abcdefghijklmnopqrstuvwxyzABCXYZ_-./") )
